@@ -18,7 +18,8 @@ LEVEL_NOTE = 'trusted: the chain/pattern description and renderer in this module
 DESIGN_REF = 'DESIGN.md section 3 C18'
 LEVEL = 'exploration'
 RULE = ('Cases: (scan circuit, chains with markers, signal-group orders, pattern set, style). Non-trivial iff at least one inversion marker lies strictly inside a chain of '
-        '>= 3 cells. Distinct = digest of the STIL text + netlist.')
+        '>= 3 cells. Distinct = digest of the STIL text + netlist.'
+        ' One big set per shard (1025-2050 patterns, a chain of 130-270 cells); names differing only in case; texts reach the parser through parse() or the load() variants.')
 ASSUMPTIONS = ["X and '-' are one class; clock rows (strings containing P) and rows whose expectation is unknown are not compared",
                'ScanCells are listed from scan-in to scan-out (as TetraMAX writes them); flip-flop kinds contain the upper-case substring DFF',
                'in LoC sets without a clock pulse in the capture call, data-input rows are not compared (the documented combination rule needs the capture pulse)']
